@@ -41,7 +41,7 @@ def plan(tier):
     return {"cases": 5000 if tier == "quick" else 100000, "shards": 16, "case_timeout": 30, "shard_timeout": 3000,
             "min_nontrivial": 150,
             "min_counters": {"events_logged": 20000, "prefix_checks": 5000, "abs_bound_checks": 1500, "reevaluation_checks": 500,
-                             "build_checks": 3000, "pull_events": 5000, "long_domain_cases_with_17_or_more_results": 30}}
+                             "build_checks": 3000, "pull_events": 5000, "long_domain_cases_with_17_or_more_results": 30, "build_checks_with_a_collection_domain": 500}}
 
 
 def setup(ctx):
@@ -97,6 +97,8 @@ def gen(rng, tier, ctx):
         spec["tseed"] = rng.randrange(10 ** 6)
     for v in spec["vars"]:
         v["kind"] = "gen"
+        if rng.random() < 0.25:
+            v["domain_form"] = "collection"     # a user collection instead of a generator: nobody asks it anything at construction
     for d in spec.get("derived", []):
         if d["kind"] == "sub":
             d["var"]["kind"] = "gen"
@@ -365,6 +367,7 @@ def run(spec, ctx):
         C["build_raises"] += 1
         return {"status": "skip"}
     C["build_checks"] += 1
+    C["build_checks_with_a_collection_domain"] += any(v.get("domain_form") == "collection" for v in spec["vars"])
     if built:
         return {"status": "fail", "kind": "build-time-event", "key": None,
                 "detail": f"construction evaluated user data: {built[:6]} | {G.skeleton(spec)}"}
